@@ -28,8 +28,10 @@ class Verifier(Calls):
         self.max_paths = self.opts.get("max_paths", 4000)
         self.outcomes = {"return": 0, "raise": 0, "cut": 0, "infeasible": 0}
         self.cover_hits = {}
+        self.sym_cache = {}
         from .effects import Effects
         self.effects = Effects(sources, reg)
+        self.effects.inline_here = set(self.contract.inline_callees) | {fid}
         # class facts from the source: exception class hierarchy of the package
         import ast as _ast
         for mod in ("exception", "types"):
@@ -107,6 +109,7 @@ class Verifier(Calls):
             except ReturnSig as r:
                 result = r.value
             self.outcomes["return"] += 1
+            self.frame_obligations(old)
             env2 = dict(params)
             env2["ret"] = result
             if "result" not in params:
@@ -116,6 +119,7 @@ class Verifier(Calls):
                 self.prove_clause("ensures/%d" % j, cl, kind="post", spec_env=env2, old=old)
         except PyRaise as pr:
             self.outcomes["raise"] += 1
+            self.frame_obligations(old)
             exc = pr.exc
             entry = None
             for e in c.raises:
@@ -126,11 +130,56 @@ class Verifier(Calls):
                 self.oblige("no-undeclared-exception/%s" % exc.cls, z3.BoolVal(False), kind="exception-freedom",
                             info={"clause": "the function raises only what its contract declares", "exception": exc.cls})
             else:
+                env3 = dict(params)
+                env3["exc"] = VObj(self.box(exc))
                 for j, cl in enumerate(c.raises[entry]):
                     self.cover_hits[("raises", entry, j)] = self.cover_hits.get(("raises", entry, j), 0) + 1
-                    self.prove_clause("raises[%s]/%d" % (entry, j), cl, kind="post-exc", spec_env=dict(params), old=old)
+                    self.prove_clause("raises[%s]/%d" % (entry, j), cl, kind="post-exc", spec_env=env3, old=old)
         except (BreakSig, ContinueSig):
             raise Unsupported("break/continue outside loop")
+
+    def frame_obligations(self, old):
+        """Frame condition: a field of an object that existed at entry, or a heap attribute of a pre-existing opaque object,
+        that the contract's `modifies` does not list must be unchanged at exit."""
+        c = self.contract
+        allowed, allow_all = set(), set()
+        for p in c.modifies:
+            if p.startswith("ghost:"):
+                continue
+            last = p.split(":")[-1].split(".")[-1].split("#")[0]
+            if last == "*":
+                allow_all.add(p.split(".")[0])
+            allowed.add(last)
+        for (oid, f), v0 in old.fields.items():
+            cls = old.ents.get(oid)
+            if f in allowed or allow_all:
+                continue
+            v1 = self.st.fields.get((oid, f))
+            if isinstance(v0, VCont):
+                c1, c0 = self.st.conts.get(("f", oid, f)), old.conts.get(("f", oid, f))
+                if isinstance(c1, StackV) and isinstance(c0, StackV) and len(c1.items) == len(c0.items) and all(a is b for a, b in zip(c1.items, c0.items)) \
+                        and c1.prefix_top is c0.prefix_top and c1.prefix_some is c0.prefix_some:
+                    continue
+                if c1 is not c0:
+                    self.oblige("frame/%s.%s" % (cls, f), z3.BoolVal(False), kind="frame", info={"clause": "field %s.%s is written but not listed in modifies" % (cls, f)})
+                continue
+            if v1 is v0:
+                continue
+            try:
+                g = self.equal(v0, v1, identity=True)
+            except Unsupported:
+                g = z3.BoolVal(False)
+            self.oblige("frame/%s.%s" % (cls, f), g, kind="frame", info={"clause": "%s.%s == old(%s.%s)  (not listed in modifies)" % (cls, f, cls, f)})
+        a0 = z3.Const("alloc0", z3.ArraySort(ObjSort, z3.BoolSort()))
+        for name, arr in self.st.objheap.items():
+            if name.split("#")[0] in allowed:
+                continue
+            arr0 = old.objheap.get(name, z3.Const("heap0_" + name, arr.sort()))
+            if arr.eq(arr0):
+                continue
+            o = self.fresh("frame_o", ObjSort)
+            self.oblige("frame/heap:%s" % name, z3.Implies(a0[o], arr[o] == arr0[o]), kind="frame",
+                        info={"clause": "attribute %s of every pre-existing object is unchanged (not listed in modifies)" % name})
 
     def loop(self, s, target, it, ordinal=None):
         if ordinal is not None:
@@ -145,10 +194,16 @@ class Verifier(Calls):
     # ------------------------------------------------------------------ all paths
     def explore(self):
         self.vacuous = False
-        self.pending = [[]]
+        self.pending = [list(x) for x in self.opts.get("start_scripts", [[]])]
+        split_at = self.opts.get("split_at")
+        self.leftover = []
         t0 = time.time()
         while self.pending:
-            script = self.pending.pop()
+            if split_at and len(self.pending) >= split_at:
+                self.leftover = self.pending
+                self.pending = []
+                break
+            script = self.pending.pop(0) if split_at else self.pending.pop()
             self.paths += 1
             if self.paths > self.max_paths:
                 raise Unsupported("path budget exceeded in %s" % self.fid)
@@ -169,8 +224,76 @@ class Verifier(Calls):
         s.add(z3.Not(ob.goal))
         return s
 
+    def symbols_of(self, f):
+        """Names of the uninterpreted symbols of a formula (cached per formula)."""
+        i = f.get_id()
+        c = self.sym_cache.get(i)
+        if c is not None:
+            return c
+        out, seen, stack = set(), set(), [f]
+        while stack:
+            t = stack.pop()
+            ti = t.get_id()
+            if ti in seen:
+                continue
+            seen.add(ti)
+            if z3.is_app(t):
+                d = t.decl()
+                if d.kind() == z3.Z3_OP_UNINTERPRETED:
+                    out.add(d.name())
+                stack.extend(t.children())
+            elif z3.is_quantifier(t):
+                stack.append(t.body())
+        self.sym_cache[i] = out
+        return out
+
+    def relevance_slices(self, ob):
+        """Progressively larger subsets of the assumptions, by symbol-sharing distance from the goal.  Proving the goal from
+        a subset is sound; only `unsat` answers are taken from a slice."""
+        facts = ob.pc
+        syms = [self.symbols_of(f) for f in facts]
+        freq = {}
+        for sset in syms:
+            for x in sset:
+                freq[x] = freq.get(x, 0) + 1
+        common = {x for x, n in freq.items() if n > max(40, len(facts) // 4)}
+        cur = self.symbols_of(ob.goal) - common
+        chosen = [False] * len(facts)
+        for depth in range(1, 5):
+            new_syms = set()
+            for idx, sset in enumerate(syms):
+                if not chosen[idx] and (sset - common) & cur:
+                    chosen[idx] = True
+                    new_syms |= sset - common
+            cur |= new_syms
+            sub = [f for f, c in zip(facts, chosen) if c]
+            if len(sub) >= len(facts):
+                return
+            yield depth, sub
+
     def discharge(self, ob, timeout_ms=10000):
         t0 = time.time()
+        quick = None
+        if len(ob.pc) > 150:
+            quick = z3.Solver()
+            quick.set("timeout", min(2500, timeout_ms))
+            quick.add(*ob.pc)
+            quick.add(z3.Not(ob.goal))
+            rq = quick.check()
+            if rq == z3.unsat:
+                ob.result, ob.backend, ob.reason = "discharged", "z3", ""
+                ob.time = time.time() - t0
+                return ob
+        if len(ob.pc) > 150 and rq == z3.unknown:
+            for depth, sub in self.relevance_slices(ob):
+                s1 = z3.Solver()
+                s1.set("timeout", min(3000, timeout_ms))
+                s1.add(*sub)
+                s1.add(z3.Not(ob.goal))
+                if s1.check() == z3.unsat:
+                    ob.result, ob.backend, ob.reason = "discharged", "z3", "relevance slice depth %d (%d of %d facts)" % (depth, len(sub), len(ob.pc))
+                    ob.time = time.time() - t0
+                    return ob
         try:
             s = self.build_solver(ob, timeout_ms)
         except Unsupported as e:
@@ -263,6 +386,7 @@ class Verifier(Calls):
                                        "time_s": round(ob.time, 4), "clause": ob.info.get("clause"), "tags": ob.info.get("tags"), "model": ob.model,
                                        "reason": getattr(ob, "reason", ""), "goal": str(ob.goal)[:300]})
         rep["paths"] = self.paths
+        rep["leftover_scripts"] = getattr(self, "leftover", [])
         rep["outcomes"] = self.outcomes
         rep["pruned_branches"] = self.pruned
         rep["inlined"] = sorted(self.inlined)
@@ -271,5 +395,7 @@ class Verifier(Calls):
         unreached = [j for j in range(len(self.contract.ensures)) if ("ensures", j) not in self.cover_hits]
         rep["unreached_ensures"] = unreached if self.contract.ensures else []
         rep["wall_s"] = round(time.time() - t0, 3)
+        rep["explore_s"] = round(self.explore_time, 2)
+        rep["feasibility_checks"] = self.feas_checks
         rep["solver_time_s"] = round(sum(o.time for o in obs) + self.solver_time, 3)
         return rep
